@@ -94,12 +94,16 @@ def translate(names=None):
     """Regenerate coq/Gen/*.v from /repo's working tree (content-addressed).
     names = the translators a property depends on (None = all of them)."""
     tdir = os.path.join(ROOT, "translate")
+    problems = []
     for script in sorted(glob.glob(os.path.join(tdir, "*.py"))):
         if names is not None and os.path.basename(script) not in names:
             continue
         rc, out, _ = sh([sys.executable, script, REPO, os.path.join(COQ, "Gen")], timeout=120)
         if rc != 0:
-            raise CheckFailure("translator %s failed:\n%s" % (os.path.basename(script), out[-3000:]))
+            # the source no longer has the shape the translator (and hence the model) was written for:
+            # a broken tie, reported like a broken proof obligation; the search still runs
+            problems.append("translator %s aborted: %s" % (os.path.basename(script), out.strip()[-1500:]))
+    return problems
 
 
 # --------------------------------------------------------------------------- coq
